@@ -182,8 +182,11 @@ def run(ctx):
     allpts = pts + extra + rnd
     # detector altitudes: the reference orbit mostly, others on a subsample
     work = {525.0: [], 33.0: [], 1000.0: []}
+    if ctx.thorough():
+        work.update({100.0: [], 36000.0: [], 21.0: []})
+    others = [a_ for a_ in work if a_ != 525.0]
     for i, p in enumerate(allpts):
-        work[525.0 if i % 4 else (33.0 if i % 8 == 0 else 1000.0)].append(p)
+        work[525.0 if i % 4 else others[(i // 4) % len(others)]].append(p)
     for p in extra[:: 3]:
         work[33.0].append(p)
     # pre-flight: the sanitized build on the boundary grid and on harness-generated in-domain tuples,
@@ -214,6 +217,6 @@ def run(ctx):
     for m in ("f32-band", "f64-logic", "clamp", "stepping", "stepping-vs-reference", "sanitizer", "f32-median"):
         ctx.require(m)
     return ctx.finish(
-        rule="stratified grid over [0,42 deg] x [0,20 km] x [1e-5,1e4] x 100 PeV incl. all faces, hostile extras (0, 0.25, 0.999999, 1 deg; 10.999999/11/20 km; exact decades) and seeded random points; detector altitudes 525 km (3/4), 33 km and 1000 km; a case is a distinct (detector, beta, altitude, energy); energies within 1e-9 of a power of ten are excluded from the double-precision comparison only (int(log10 E) is a legitimate discontinuity)",
+        rule="stratified grid over [0,42 deg] x [0,20 km] x [1e-5,1e4] x 100 PeV incl. all faces, hostile extras (0, 0.25, 0.999999, 1 deg; 10.999999/11/20 km; exact decades) and seeded random points; detector altitudes 525 km (3/4), 33 km and 1000 km (thorough: also 21, 100 and 36000 km); a case is a distinct (detector, beta, altitude, energy); energies within 1e-9 of a power of ten are excluded from the double-precision comparison only (int(log10 E) is a legitimate discontinuity)",
         assumptions=["the reference (cphot_ref, DESIGN Appendix A) is the model the property names", "libm / numpy elementary functions", "clang's sanitizers on the shim build of the current zsteps.cpp; a clean run is 'no report on N tuples', not memory safety", "the prebuilt zsteps extension cannot be rebuilt here; every kernel run uses the function compiled from the working tree's source (zsteps_so_matches_source is an observation)"],
     )
